@@ -172,6 +172,9 @@ where
   /// - `Err(TryRecvError::Disconnected)`: The sender has been dropped and the
   ///   mailbox is empty.
   pub fn try_recv(&self) -> Result<(K, T), TryRecvError> {
+    if self.closed.load(Ordering::Relaxed) {
+      return Err(TryRecvError::Disconnected);
+    }
     self.consumer.try_recv()
   }
 
